@@ -208,7 +208,10 @@ class Validator(object):
                 if not is_base_datatype(el.datatype, el.version) and el.datatype is not None:
                     # Component just to search in the datatypes....
                     try:
-                        ref = load_reference(el.datatype, 'Datatypes_Structs', el.version)
+                        # (the element is described as a leaf, e.g. by a message profile that does not list its
+                        # components: it is checked against the structure of its datatype)
+                        ref = ('sequence', load_reference(el.datatype, 'Datatypes_Structs', el.version),
+                               el.datatype, ref[3], None, -1)
                     except ChildNotFound:
                         # e.g. the withdrawn fields of type LA2 in v2.8.2, whose datatype is no longer defined
                         errs.append(ValidationError("Datatype {} of {}.{} is not defined".
